@@ -98,71 +98,92 @@ func Load(logPath, root, scratch string) (*Recording, error) {
 }
 
 // CrossValidate compares the tree left by a really killed child (killRoot,
-// killLog) with the replay of the original recording: the killed run must have
-// performed a prefix of the recorded ops, and replaying that prefix must give
-// exactly the tree it left. It returns the prefix length.
-func (rec *Recording) CrossValidate(killLog, killRoot, scratch string, ignore func(path string) bool) (int, error) {
+// killLog) with the replay engine. The killed run's own log must replay to
+// exactly the tree it left (every call that completed before the kill is
+// applied, the call it was killed on is not). When the killed run performed a
+// prefix of the recorded ops (deterministic workload) that prefix of the
+// ORIGINAL recording must give the same tree as well (exact = true); when the
+// two executions legitimately differ (e.g. kraken iterates a Go map while
+// copying sidecars) only the self-replay is compared (exact = false). It
+// returns the number of ops the killed run performed.
+func (rec *Recording) CrossValidate(killLog, killRoot, scratch string, ignore func(path string) bool) (n int, exact bool, err error) {
+	return rec.CrossValidateCanon(killLog, killRoot, scratch, ignore, nil)
+}
+
+// CrossValidateCanon is CrossValidate with a path canonicaliser: two paths that
+// canon maps to the same string are the same path for the comparison with the
+// original recording (e.g. temporary names that embed a random uuid).
+func (rec *Recording) CrossValidateCanon(killLog, killRoot, scratch string, ignore func(path string) bool, canon func(path string) string) (n int, exact bool, err error) {
+	if canon == nil {
+		canon = func(p string) string { return p }
+	}
 	lg, err := ParseFile(killLog)
 	if err != nil {
-		return 0, fmt.Errorf("parse kill log: %w", err)
+		return 0, false, fmt.Errorf("parse kill log: %w", err)
 	}
 	if !lg.Killed {
-		return 0, fmt.Errorf("child was not killed")
+		return 0, false, fmt.Errorf("child was not killed")
 	}
 	ktr := Extract(lg, killRoot)
 	if len(ktr.Problems) > 0 {
-		return 0, fmt.Errorf("kill trace not representable: %s", strings.Join(ktr.Problems, "; "))
+		return 0, false, fmt.Errorf("kill trace not representable: %s", strings.Join(ktr.Problems, "; "))
 	}
-	n := len(ktr.Ops)
-	if n > len(rec.Trace.Ops) {
-		return n, fmt.Errorf("killed run performed %d ops, recording has %d", n, len(rec.Trace.Ops))
-	}
-	for i := 0; i < n; i++ {
+	n = len(ktr.Ops)
+	exact = n <= len(rec.Trace.Ops)
+	for i := 0; exact && i < n; i++ {
 		a, b := rec.Trace.Ops[i], ktr.Ops[i]
-		if a.Kind != b.Kind || a.Path != b.Path || a.Path2 != b.Path2 || a.Off != b.Off || a.Size != b.Size ||
+		if a.Kind != b.Kind || canon(a.Path) != canon(b.Path) || canon(a.Path2) != canon(b.Path2) || a.Off != b.Off || a.Size != b.Size ||
 			(!bytes.Equal(a.Data, b.Data) && (ignore == nil || !ignore(a.Path))) {
-			return n, fmt.Errorf("killed run diverges from the recording at op %d: %s vs %s (workload not deterministic)", i, a, b)
+			exact = false
 		}
-	}
-	rp, err := NewReplayer(filepath.Join(scratch, "xval"))
-	if err != nil {
-		return n, err
-	}
-	defer os.RemoveAll(rp.Dir)
-	if err := rp.ApplyTo(rec.Trace.Ops, n); err != nil {
-		return n, err
 	}
 	want, err := Snapshot(killRoot)
 	if err != nil {
-		return n, err
+		return n, exact, err
 	}
-	got, err := Snapshot(rp.Dir)
-	if err != nil {
-		return n, err
-	}
-	if ignore != nil {
-		for p := range want {
-			if ignore(p) {
-				e := want[p]
+	mask := func(m map[string]Entry, canonicalise bool) map[string]Entry {
+		out := map[string]Entry{}
+		for p, e := range m {
+			if ignore != nil && ignore(p) {
 				e.Sum = ""
-				want[p] = e
 			}
+			if canonicalise {
+				p = canon(p)
+			}
+			out[p] = e
 		}
-		for p := range got {
-			if ignore(p) {
-				e := got[p]
-				e.Sum = ""
-				got[p] = e
+		return out
+	}
+	compare := func(ops []*Op, what string, canonicalise bool) error {
+		rp, err := NewReplayer(filepath.Join(scratch, "xval"))
+		if err != nil {
+			return err
+		}
+		defer os.RemoveAll(rp.Dir)
+		if err := rp.ApplyTo(ops, n); err != nil {
+			return err
+		}
+		got, err := Snapshot(rp.Dir)
+		if err != nil {
+			return err
+		}
+		if d := Diff(mask(want, canonicalise), mask(got, canonicalise)); len(d) > 0 {
+			if len(d) > 8 {
+				d = d[:8]
 			}
+			return fmt.Errorf("tree left by the killed child differs from %s prefix %d: %s", what, n, strings.Join(d, "; "))
+		}
+		return nil
+	}
+	if err := compare(ktr.Ops, "the replay of its own log,", false); err != nil {
+		return n, exact, err
+	}
+	if exact {
+		if err := compare(rec.Trace.Ops, "the recording's replayed", true); err != nil {
+			return n, exact, err
 		}
 	}
-	if d := Diff(want, got); len(d) > 0 {
-		if len(d) > 8 {
-			d = d[:8]
-		}
-		return n, fmt.Errorf("tree left by the killed child differs from replayed prefix %d: %s", n, strings.Join(d, "; "))
-	}
-	return n, nil
+	return n, exact, nil
 }
 
 // HarnessDir locates the verif/harness module directory.
